@@ -892,6 +892,15 @@ func (c *wsConn) handleWsConn(ctx context.Context) {
 		case <-c.pongs:
 			action = "pong"
 
+			// a signal may still be pending from before the connection was lost: the reconnect
+			// goroutine may be replacing c.conn right now, and the old one needs no deadline
+			c.errLk.Lock()
+			lost := c.incomingErr != nil
+			c.errLk.Unlock()
+			if lost {
+				break
+			}
+
 			c.resetReadDeadline()
 		case <-timeoutCh:
 			if c.pingInterval == 0 {
@@ -980,7 +989,9 @@ func (r *deadlineResetReader) Read(p []byte) (n int, err error) {
 		log.Warnw("slow/large read, resetting deadline while reading the frame", "since", time.Since(r.lastReset), "n", n, "err", err, "p", len(p))
 
 		r.reset()
-		r.alive()
+		if n > 0 {
+			r.alive()
+		}
 		r.lastReset = time.Now()
 	}
 	return
